@@ -92,3 +92,15 @@ LEVEL_NOTE["C14"] = LEVEL_NOTE["default"] + " float32 arithmetic is outside the 
 LEVEL_NOTE["C10"] = LEVEL_NOTE["default"] + " That numpy distributions stay in their documented ranges, and networkx graph generators, are trusted."
 TECHNIQUE["C12"] = "Lean 4 theorems over a process-pool model (all chunkings) + differential runs of the real evaluate() across worker counts"
 TECHNIQUE["C11"] = "Lean 4 theorems (enumeration, value, all chunkings) + differential runs of the real search across worker counts"
+
+LEVEL_TEXT["C09"] = ("Theorems by induction over every sequence of reset / step / unstep with valid actions from the constructor: known = initial ∪ {∅, N} ∪ revealed and carries the hidden values; "
+                     "mask = explorable ∖ known; observation = normalised value at known explorable positions, 0 elsewhere; reward = −gap(compute(knowledge)) (≤ 0 for a non-negative gap); "
+                     "info = id; done ↔ budget ∨ nothing left ∨ all widths 0; reset forgets everything but the minimal information of the new game; invalid calls raise and leave what the code "
+                     "leaves. Computer and gap are parameters (instantiated for the model's own computers in reach_inv_real). Tie: every reveal order at n=3, random walks at n=4,5 on the real ICG_Gym.")
+LEVEL_TEXT["C13"] = ("Theorems at every state satisfying the C09 invariant: greedy / worst-greedy return the lowest-index valid action attaining the max / min immediate reward, largest the lowest-index "
+                     "valid action of maximal size, random some valid action, and the environment afterwards equals the environment before (EnvEq, via the undo theorem); expected-greedy never "
+                     "repeats, each extension minimises the mean gap among the candidates, its curve is non-increasing for monotone gaps, ≥ the exhaustive optimum and equal to it for 0 and 1 reveals. "
+                     "Tie: real SOLVERS at every state (n=3 all, n=4,5 sampled) and real get_greedy_rewards vs get_best_exploitability on replayed games.")
+LEVEL_TEXT["C16"] = ("Theorems on top of C09's invariant: mask k ↔ some explorable coalition of size k is unknown; a step with an allowed k reveals exactly the chosen previously-unknown coalition of that "
+                     "size (for EVERY choice the sampler can make), reports it and returns the inner reward / done; observation = per-size sum of the inner observation, of length max explorable "
+                     "size + 1 (= n with minimal knowledge, n ≥ 3). Tie: real ICG_Gym_Linear n = 3..6, the sampled coalition read from info and fed to the model.")
